@@ -545,6 +545,13 @@ int main(int argc, char **argv) {
                            zck_get_chunk_number(s), zck_get_chunk_ctx(s) != tg);
             }
             RET("\"rc\":%d", (int)r);
+        } else if(!strcmp(op, "cmpchunk")) {
+            /* cmpchunk C1 k1 C2 k2 : zck_compare_chunk_digest on chunks of two contexts */
+            zckChunk *a = zck_get_chunk(C(t[1]), strtoull(t[2], NULL, 10));
+            zckChunk *b = zck_get_chunk(C(t[3]), strtoull(t[4], NULL, 10));
+            if(!a || !b) { RET("\"rc\":%d,\"nochunk\":1", -9); continue; }
+            bool r = zck_compare_chunk_digest(a, b);
+            RET("\"rc\":%d", (int)r);
         } else if(!strcmp(op, "hashdb")) {
             bool r = zck_generate_hashdb(C(t[1]));
             RET("\"rc\":%d", (int)r);
